@@ -124,6 +124,11 @@ func c03DrawInput(rt *rapid.T) (layoutInput, *gen.Rendered) {
 
 func TestC03(t *testing.T) {
 	rec := ev.New("C03", c03Rule)
+	defer func() {
+		if !rec.Flush() {
+			t.Fail()
+		}
+	}()
 	rec.Assume("the .g4 recogniser in internal/g4 and the strict comment stripper define 'layout the grammar allows'; comment lines are indented with spaces only",
 		"condition bodies carry no comments ('#' inside a condition is outside the property's domain)")
 	for _, c := range []string{"layout:tabs", "layout:crlf", "layout:comment-lines", "layout:trailing-comments", "layout:multi-line-restrictions", "layout:redundant-parens", "model:keyword-identifier", "layout:trailing-whitespace", "layout:no-final-newline", "file:module"} {
@@ -195,9 +200,6 @@ func TestC03(t *testing.T) {
 		}
 	})
 	if harness {
-		t.Fail()
-	}
-	if !rec.Flush() {
 		t.Fail()
 	}
 }
